@@ -39,3 +39,21 @@ CHECKS["C04"] = dict(
                  "delimiter payloads are admissible only if the first delimiter occurrence in payload+delimiter is at len(payload)",
                  "the consumer reads every delivered message to its end before returning, as codec users must"],
 )
+
+CHECKS["C08"] = dict(
+    test="TestC08", level="fault_enumeration",
+    quick=dict(shards=8, checks=15000, timeout=300),
+    thorough=dict(shards=16, checks=400000, timeout=2400, shrinktime="120s"),
+    rule="rapid-generated adversarial byte streams per decoder configuration (small and large max): valid frames from the reference framer "
+         "interleaved with frames 1-3 bytes over max, hostile length fields (0, max, max+1, 2^k-1, sign bit, below-header, below-strip), "
+         "over-long/overflowing uvarints, missing or partial delimiters and random bytes; the stream then ends at a generated cut point "
+         "(inside a header, inside a body, at a frame boundary) with EOF or a read error, under generated fragmentation. Each HandleRead "
+         "call is judged against an independent reference decoder: a delivered message must be the complete next frame, inadmissible or "
+         "truncated frames and end-of-stream must raise (never a runtime error), bytes pulled per frame are bounded, every call makes "
+         "progress; 5% of cases run through a real channel/read loop (peer EOF / read error / parked). "
+         "Non-trivial = the first malformed or truncated frame follows at least one valid frame. Distinct by case hash.",
+    required=["codec:lf", "codec:prep", "codec:varint", "codec:delim", "codec:fixed", "layer:channel", "bad-after-valid",
+              "first-bad:truncated", "first-bad:reject", "ends-at-frame-boundary", "end:eof", "end:err", "end:park", "delivered-ok", "raised:"],
+    assumptions=["reference decoders follow the documented parameter semantics",
+                 "a message whose consumer-side read ends with a non-EOF error counts as not delivered (a real consumer raises)"],
+)
